@@ -19,7 +19,7 @@
    to the state (hist, hidden from the fingerprint by VIEW), the step itself, and a deterministic
    completion (processes run to the end in index order), each step with the gate the goroutine must
    be parked at, what it must observe and what it adds to the table.  *)
-EXTENDS Symbols, Json
+EXTENDS Symbols, SymbolsUniverse, Json
 
 CONSTANTS NProc, MaxFiles, TrackSeq, ExportSched, ExportUniverse, SchedFiles
 
@@ -43,17 +43,18 @@ Partitions == {ps \in [Procs -> SeqsUpTo(Pool, MaxFiles)] :
 
 AllFiles(ps) == UNION {{ps[p][i] : i \in 1..Len(ps[p])} : p \in Procs}
 
-UniverseCase ==
-  [kind |-> "universe",
-   files |-> {[id |-> f, pkg |-> FD[f].pkg, syms |-> FD[f].syms, exts |-> FD[f].exts, deps |-> FD[f].deps,
-               usable |-> f \in Usable] : f \in FileIds}]
+(* the literal universe module is the universe this run is configured with *)
+FDConsistent == /\ FileIds = AllIds
+                /\ \A f \in FileIds : FDOf(f) = UFD0[f]
+UsableCase == [kind |-> "usable", ids |-> Usable]
 
-Init == /\ tbl = EmptyTable
+Init == /\ FDConsistent
+        /\ tbl = EmptyTable
         /\ parts \in Partitions
         /\ procs = [p \in Procs |-> NewProc(parts[p])]
         /\ hist = <<>>
         /\ snap = EmptyTable
-        /\ (ExportUniverse => PrintT("CASE " \o ToJson(UniverseCase)))
+        /\ (ExportUniverse => PrintT("CASE " \o ToJson(UsableCase)))
 
 AllDone(ps) == \A p \in Procs : Done(ps[p])
 
@@ -108,7 +109,7 @@ NoFailureAllCommitted ==
      IN /\ tbl.files = F
         /\ DOMAIN tbl.syms = UNION {SymNames(f) : f \in F}
         /\ DOMAIN tbl.exts = UNION {ExtKeys(f) : f \in F}
-        /\ tbl.pkgs = UNION {FPref[f] : f \in F}
+        /\ tbl.pkgs = UNION {PkgPrefs(f) : f \in F}
 
 TableSound ==
   LET F == Closure(AllFiles(parts))
